@@ -19,12 +19,12 @@ func main() {
 	k3 := newKit3()
 	k2 := newKit2()
 
-	booleanSection(r, k3, r.N(2500, 30000))
-	booleanSection(r, k2, r.N(2000, 24000))
-	stackSection(r, k3, r.N(6000, 70000))
-	smoothSections(r, k3, r.N(12000, 150000), r.N(2500, 30000))
-	smoothSections(r, k2, r.N(12000, 150000), r.N(2500, 30000))
-	rectSetSection(r, r.N(3000, 36000))
+	booleanSection(r, k3, r.N(5000, 30000))
+	booleanSection(r, k2, r.N(4000, 24000))
+	stackSection(r, k3, r.N(12000, 70000))
+	smoothSections(r, k3, r.N(24000, 150000), r.N(5000, 30000))
+	smoothSections(r, k2, r.N(24000, 150000), r.N(5000, 30000))
+	rectSetSection(r, r.N(6000, 36000))
 
 	for _, t := range []string{"3d", "2d"} {
 		r.Require(t+".bool.points", 10000)
